@@ -17,6 +17,8 @@ def run_one(ctx, prop, plan, seed, decisions=None):
     ctx.count("driver_steps", res["steps"])
     ctx.count("launch_events", sum(1 for e in res["events"] if e[0] == "launch"))
     ctx.count("exit_events", sum(1 for e in res["events"] if e[0] == "exit"))
+    ctx.count("blocks_left_normally_with_failure", sum(1 for e in res["events"] if e[0] == "block-left-normally" and e[1] == "FailedExperiment"))
+    ctx.count("blocks_left_normally_without_failure", sum(1 for e in res["events"] if e[0] == "block-left-normally" and e[1] == "no failure"))
     ctx.count("dependency_failed_under_reattached_job", sum(1 for e in res["events"] if e[0] == "dependency-failed-under-reattached-job"))
     ctx.distinct(res["trace"], "distinct_traces")
     ctx.distinct([plan["jobs"], plan["runs"], res["trace"]], "distinct_plan_trace")
